@@ -173,7 +173,8 @@ type muxGen struct {
 	keyEvery       int // if >0 force regular GOP
 	videoOnly      bool
 	forceVideo     bool
-	paramChangeDen int // a parameter change at a key frame with probability 1/paramChangeDen (default 6)
+	h26xOnly       bool // video is H264 or H265 (codecs whose parameter sets travel in-band as NAL units)
+	paramChangeDen int  // a parameter change at a key frame with probability 1/paramChangeDen (default 6)
 }
 
 var aacRates = []int{8000, 11025, 12000, 16000, 22050, 24000, 32000, 44100, 48000, 88200, 96000}
@@ -213,6 +214,9 @@ func genMuxCfg(r *Run, g *muxGen) *muxCfg {
 		kind := "h264"
 		if c.vname != "mpegts" {
 			kind = Pick(T, "h264", "h264", "h265", "vp9", "av1")
+			if g.h26xOnly {
+				kind = Pick(T, "h264", "h265")
+			}
 		}
 		p := videoParamVariant(kind, T.Intn(16))
 		ts := &trackSpec{kind: kind, video: true, clock: 90000, initial: p}
@@ -708,10 +712,12 @@ type muxWorld struct {
 	writer  *Task
 	reqs    []*Task
 	encErrs []string
-	encMu   sync.Mutex
-	pending []*httpResp
-	closed  bool
-	errCall *writeCall
+	// what the user's OnEncodeError callback does besides recording (burst profiles: it takes its time)
+	onEncodeError func()
+	encMu         sync.Mutex
+	pending       []*httpResp
+	closed        bool
+	errCall       *writeCall
 	// observation/probe requests of the harness never park at hooks when this is set
 	probesBypassHooks bool
 
@@ -750,6 +756,9 @@ func newMuxWorld(r *Run, c *muxCfg, script []*writeCall) (*muxWorld, error) {
 			w.encMu.Lock()
 			w.encErrs = append(w.encErrs, err.Error())
 			w.encMu.Unlock()
+			if w.onEncodeError != nil {
+				w.onEncodeError()
+			}
 		},
 	}
 	if err := w.m.Start(); err != nil {
